@@ -76,11 +76,22 @@ def user_prims():
 
     defvjp_argnums(log_mul, mk_mul)
     defjvp(log_mul, lambda g, ans, a, b, tag: g * b, lambda g, ans, a, b, tag: a * g)
-    _USER.update({"log_scale": log_scale, "log_mul": log_mul})
+    @primitive
+    def log_tri(a, b, c, tag):
+        return a * b + c * a
+
+    # three differentiable operands registered through defvjp: exercises its generic (L >= 3) code path
+    def t0(ans, a, b, c, tag):
+        LOG.append(("make", tag))
+        return lambda g: (LOG.append(("apply", tag)), g * (b + c))[1]
+
+    defvjp(log_tri, t0, lambda ans, a, b, c, tag: lambda g: g * a, lambda ans, a, b, c, tag: lambda g: g * a)
+    defjvp(log_tri, lambda g, ans, a, b, c, tag: g * (b + c), lambda g, ans, a, b, c, tag: g * a, lambda g, ans, a, b, c, tag: g * a)
+    _USER.update({"log_scale": log_scale, "log_mul": log_mul, "log_tri": log_tri})
     return _USER
 
 
-RAW_USER = {"log_scale": lambda a, c, tag: a * c, "log_mul": lambda a, b, tag: a * b}
+RAW_USER = {"log_scale": lambda a, c, tag: a * c, "log_mul": lambda a, b, tag: a * b, "log_tri": lambda a, b, c, tag: a * b + c * a}
 
 
 def _new_result():
@@ -131,7 +142,7 @@ def _live_user_ops(prog):
             stack.extend(ops[v - base]["in"])
     live = {}
     for k, op in enumerate(ops):
-        if op["op"] in ("log_scale", "log_mul"):
+        if op["op"] in ("log_scale", "log_mul", "log_tri") and (op["op"] != "log_tri" or dep[op["in"][0]]):
             live[k] = (base + k) in used and dep[base + k]
     # ancestors among user ops (for order checks): anc[k] = set of user ops whose value k consumes transitively
     reach = {}
@@ -170,6 +181,8 @@ def c03_case(res, case, tier):
             return _nj(res, "numpy_raised:" + type(e).__name__)
         if not onp.isfinite(y0):
             return _nj(res, "nonfinite_primal")
+        if not programs.well_scaled(prog, x, RAW_USER):
+            return _nj(res, "ill_scaled")
         PROBES.reset()
         del LOG[:]
         try:
@@ -178,6 +191,14 @@ def c03_case(res, case, tier):
             grad = vjp(1.0)
         except Exception as e:
             return _viol(res, sig, "exception:" + type(e).__name__, case, traceback.format_exc()[-400:])
+    try:
+        with warnings.catch_warnings():
+            warnings.simplefilter("ignore")
+            grad_again = vjp(1.0)
+        if not bits_equal(onp.asarray(grad_again), onp.asarray(grad)):
+            return _viol(res, sig, "unstable_repeat", case, "second pull-back of the same trace differs: %r vs %r" % (grad_again, grad))
+    except Exception as e:
+        return _viol(res, sig, "exception:second_pullback:" + type(e).__name__, case, traceback.format_exc()[-400:])
     if not st["depends_on_x"]:
         if onp.any(onp.asarray(grad) != 0):
             return _viol(res, sig, "nonzero_for_independent", case, "gradient %r" % (grad,))
@@ -230,7 +251,7 @@ def c03_case(res, case, tier):
     except Exception as e:
         return _viol(res, sig, "exception:fwd:" + type(e).__name__, case, traceback.format_exc()[-400:])
     # (b),(c) probe log of the first-order backward pass
-    passes = PROBES.passes[npass0:]
+    passes = PROBES.passes[npass0:][:1]
     nev = 0
     if PROBES.attached.get("P-node") is True and PROBES.attached.get("P-pass") is True:
         for ps in passes:
@@ -246,7 +267,10 @@ def c03_case(res, case, tier):
         _cnt(res, "passes_checked", len(passes))
     # public-API cross-check through the logging primitives
     live, reach = _live_user_ops(prog)
-    applied = [t[1] for t in LOG if t[0] == "apply"]
+    applied_all = [t[1] for t in LOG if t[0] == "apply"]
+    applied = applied_all[: len(applied_all) // 2] if len(applied_all) % 2 == 0 else applied_all
+    if applied_all[len(applied):] != applied and len(applied_all) % 2 == 0:
+        return _viol(res, sig, "rule_count", case, "two pull-backs of one trace applied different rule sequences: %s vs %s" % (applied, applied_all[len(applied):]))
     for k, is_live in live.items():
         c = applied.count(k)
         if c != (1 if is_live else 0):
@@ -417,6 +441,8 @@ def c10_case(res, case, tier):
             return _nj(res, "numpy_raised:" + type(e).__name__)
         if not common.all_finite(y0):
             return _nj(res, "nonfinite_primal")
+        if not programs.well_scaled(prog, x0, RAW_USER):
+            return _nj(res, "ill_scaled")
         gs = {k: common.rand_like(rng, y0) for k in ("g1", "g2", "g3")}
         compared = 0
         for frozen in (True, False):
